@@ -215,6 +215,7 @@ def run(col, configs, tier):
         guarded(col, X.rule_exponent_allowance, facts)
         guarded(col, X.rule_min_digits_allowance, facts)
         guarded(col, X.rule_digit_window_allowance, facts)
+        guarded(col, X.rule_integer_sign_allowance, facts)
         guarded(col, X.rule_debug_buffer_belief, facts)
         guarded(col, X.rule_radix_digit_clamp, facts)
         guarded(col, X.rule_u128_count_chunks, facts)
